@@ -29,10 +29,10 @@ CLAIMS["C20"] = {
 }
 
 CLAIMS["C05"] = {
-    "technique": "static analysis: typestate dataflow over error_context_t (save/setjmp/restore/pop) with call-graph may_raise summaries, field-set sibling agreement, dominance and constant propagation in error_handler",
+    "technique": "static analysis: typestate dataflow over error_context_t (save/setjmp/restore/pop) with call-graph may_raise summaries, field-set sibling agreement, dominance and constant propagation in error_handler, restore wrappers recognised from the program (every path restores the context parameter), guard dominance on the unwind count, stack-effect abstract interpretation of every efun, must-consume path analysis of the apply family",
     "text": "All users of the error-recovery API are enumerated from the call graph; for each, the typestate automaton is run over the CFG with every call classified by an inter-procedural may-raise summary: "
             "no raising call while the context is registered but its jmp_buf unarmed, restore_context first on every recovery branch, pop_context on every exit, no re-raise into the same recovery point. "
-            "save/restore and push/pop field sets must agree and pop_control_stack must restore each saved register from its own field on every path (recovery pops a single frame), error_handler must reset its guards before every longjmp. Decides the recovery mechanism on all paths; per-efun value-stack hygiene on error is not decided.",
+            "save/restore and push/pop field sets must agree and pop_control_stack must restore each saved register from its own field on every path (recovery pops a single frame), error_handler must reset its guards before every longjmp. Decides the recovery mechanism on all paths. Also decided: the value stack is unwound by a count that cannot be negative and protected-call wrappers unwind to the caller's level instead of popping the original argument count on the recovery branch (the callee may have dropped arguments: found by replay, fixed); every member of the apply family consumes its arguments on every return; every efun leaves the stack at its declared depth; the command-giver stack is not held across a raise. Values computed by the recovered evaluation are not decided.",
     "design_ref": "DESIGN.md §5 C05",
 }
 
@@ -70,10 +70,10 @@ CLAIMS["C13"] = {
 }
 
 CLAIMS["C14"] = {
-    "technique": "static analysis: interprocedural slack dataflow (lower bound on free ring slots; summaries of room-testing helpers per sign of their result with constant arguments bound, partition on conditional arguments, raw-put helpers charged at their call sites) at every store into message_buf, structural checks of the modular cursor arithmetic in flush_message, who-may-write, sibling agreement",
+    "technique": "static analysis: interprocedural slack dataflow (lower bound on free ring slots; summaries of room-testing helpers per sign of their result with constant arguments bound, partition on conditional arguments, raw-put helpers charged at their call sites) at every store into message_buf, structural checks of the modular cursor arithmetic in flush_message, who-may-write, sibling agreement, boundary analysis of snprintf-family truncation tests",
     "text": "Decides the ring-buffer arithmetic on all paths: each store into the output ring happens at the producer with at least one free slot (including the CR LF pair and the re-test after a flush) and is followed by the modular advance and the length increment; "
             "flush_message sends only the contiguous unsent chunk, advances the consumer modulo the size by the bytes actually sent and lowers the length by the same amount, and consumes nothing when send fails; only the ring API writes the three cursor fields. "
-            "In-order exactly-once delivery under arbitrary partial-write patterns is behavioural and not decided.",
+            "Text formatted into a fixed buffer on the output path is queued only when the truncation test puts a result of exactly the buffer size on the truncated side. In-order exactly-once delivery under arbitrary partial-write patterns is behavioural and not decided.",
     "design_ref": "DESIGN.md §5 C14",
 }
 
@@ -86,26 +86,26 @@ CLAIMS["C12"] = {
 }
 
 CLAIMS["C17"] = {
-    "technique": "static analysis: must-pass-through (avoid-set reachability on the passing/stale edges of each staleness test, loop-iteration form for includes and inherits) in load_binary; writer/reader agreement on the preamble; bypass analysis of the include-list registration in add_program_file, must-pass-through of a recording call between failed include candidates, provenance of the stat() path of the configuration stamp",
+    "technique": "static analysis: must-pass-through (avoid-set reachability on the passing/stale edges of each staleness test, loop-iteration form for includes and inherits) in load_binary; writer/reader agreement on the preamble; bypass analysis of the include-list registration in add_program_file, must-pass-through of a recording call between failed include candidates, provenance of the stat() path of the configuration stamp, units-of-measure (bytes vs element index) propagation through locals, helper parameters and dedicated record fields of the compiler's memory blocks",
     "text": "Decides the staleness clause for all paths of load_binary: the successful return is reachable only through the passing edge of the source, driver-id, config-id, per-include and per-inherit (source and binary) tests, and no stale edge can reach it; "
             "check_times reports newer-as-stale; the preamble is written and read in one order; config_id derives from the simul_efun file's mtime only; every non-top file registered by the lexer reaches the include list the binary is checked against. "
-            "That the loaded program equals what the source compiles to (the first sentence of the property) is behavioural and not decided. Also decided: every include-list entry (a file that was included, or a place where one was looked for in vain) is tested in each iteration of the staleness loop, a failed include candidate is recorded before the next one is tried, and the configuration stamp is taken from a mudlib-relative name derived from the configured simul_efun object name.",
+            "That the loaded program equals what the source compiles to (the first sentence of the property) is behavioural and not decided. Also decided: every include-list entry (a file that was included, or a place where one was looked for in vain) is tested in each iteration of the staleness loop, a failed include candidate is recorded before the next one is tried, and the configuration stamp is taken from a mudlib-relative name derived from the configured simul_efun object name; the patch list and the tables the binary is written from are addressed in one unit (a byte offset is never scaled again, an index never added to the raw block).",
     "design_ref": "DESIGN.md §5 C17",
 }
 
 CLAIMS["C04"] = {
-    "technique": "static analysis: cycle-passes-test reachability on the interpreter dispatch loop, who-may-write on eval_cost and csp over all units, dominance of limit comparisons at every raw allocation/growth site (arrays, buffers, mapping nodes, strings), re-raise path analysis in do_catch",
+    "technique": "static analysis: cycle-passes-test reachability on the interpreter dispatch loop, who-may-write on eval_cost and csp over all units, dominance of limit comparisons at every raw allocation/growth site (arrays, buffers, mapping nodes, strings), re-raise path analysis in do_catch, re-entrancy analysis (call-graph reachability of a writer between a store and its read-back) of the saved limit-error state",
     "text": "Decides the limit mechanism on all paths and sites: no cycle through the interpreter's dispatch avoids the exact-zero eval-cost tick and nothing else does arithmetic on the counter; refills happen only at task boundaries (the LPC-callable efun is a recorded finding); "
             "both control-frame pushes are behind the call-depth test; do_catch re-raises both limit errors and keeps them uncatchable for enclosing catches; every raw array/buffer allocation, mapping node increment and string growth site in the driver is dominated by a comparison with its configured maximum. "
-            "That one tick does bounded work inside every efun, and total memory, are not decided.",
+            "The limit-error state kept across master::error_handler() is held in the activation, not in storage a nested error overwrites. That one tick does bounded work inside every efun, and total memory, are not decided.",
     "design_ref": "DESIGN.md §5 C04",
 }
 
 CLAIMS["C07"] = {
-    "technique": "static analysis: guard dominance of function_visible over both dispatch sites of apply_low, provenance of the flags operand, constant-mask check, hit/miss sibling agreement on the apply cache (negative entries only under lookup==NULL, field-set agreement), who-may-write, forward dataflow from every store to the global call_origin to its consuming apply_low",
+    "technique": "static analysis: guard dominance of function_visible over both dispatch sites of apply_low, provenance of the flags operand, constant-mask check, hit/miss sibling agreement on the apply cache (negative entries only under lookup==NULL, field-set agreement), who-may-write, forward dataflow from every store to the global call_origin to its consuming apply_low, context-sensitive provenance of every function_flags read that reaches a FUNCTION_FLAGS store in the compiler's inherit handling",
     "text": "Decides the visibility and cache mechanism structurally: no path of apply_low reaches the interpreter without function_visible(origin, flags of the object's own program) being true, call_other is refused for static/private/protected and nothing else is refused; "
             "the cache's hit test compares id, program and name, a negative entry is stored only when the lookup found nothing (so an earlier refused call cannot change a later verdict), and the hit path reads only fields the miss path writes. "
-            "The origin handed over through the global call_origin is consumed by the next apply_low with no LPC-running call and no function exit in between (otherwise a load or a skipped element changes how the next call is classified). Most-derived resolution under inheritance (find_function order, offsets) and compile-time overloading are not decided.",
+            "The origin handed over through the global call_origin is consumed by the next apply_low with no LPC-running call and no function exit in between (otherwise a load or a skipped element changes how the next call is classified). Entering an inherited program adds the inherit entry's offsets (pairs), alias slots get the aliased function's flags, and the flags of an inherited slot are read from the program named in the inherit statement at its own slot (not from the defining program, which lacks the modifiers of intermediate `static inherit` levels). Most-derived resolution order (find_function) is not decided.",
     "design_ref": "DESIGN.md §5 C07",
 }
 
@@ -118,19 +118,19 @@ CLAIMS["C08"] = {
 }
 
 CLAIMS["C16"] = {
-    "technique": "static analysis: sink/argument analysis and dominance in save_object (atomic replace protocol), sibling agreement between svalue_save_size and save_svalue (switch case sets, constant and per-iteration store counts vs accounted sizes), store-after-parse ordering in safe_restore_svalue, dominance of the inherit recursion over every use of num_variables_defined in the variable-layout walkers, must-pass-through of a NUL test in every delimiter-scanning loop of the string readers, type-width check of decimal accumulators and digit loops, call-cycle (SCC) analysis with counter-guard dominance for the recursion over nesting, may-raise effect analysis over the region where the temporary stream is open, writer/reader escape-table agreement, printf-format analysis of float conversions",
+    "technique": "static analysis: sink/argument analysis and dominance in save_object (atomic replace protocol), sibling agreement between svalue_save_size and save_svalue (switch case sets, constant and per-iteration store counts vs accounted sizes), store-after-parse ordering in safe_restore_svalue, dominance of the inherit recursion over every use of num_variables_defined in the variable-layout walkers, must-pass-through of a NUL test in every delimiter-scanning loop of the string readers, type-width check of decimal accumulators and digit loops, call-cycle (SCC) analysis with counter-guard dominance for the recursion over nesting, may-raise effect analysis over the region where the temporary stream is open, writer/reader escape-table agreement, kill/use path analysis of the byte fetched behind a backslash, printf-format analysis of float conversions",
     "text": "Decides the structural clauses: a save can only replace the final file by rename() of a fully written, successfully closed temporary derived from the approved path, failures remove the temporary, the stream is closed on every exit and nothing can leave by error() while it is open (except what a dry run already executed); "
-            "every recursion cycle over the nesting of a value is bounded by a counter test or confined behind the bounded size pass, and the shared nesting counter is cleared when a compound restore starts; string readers test for the end of the text in every scanning loop; integers are accumulated and printed at 64 bits with an unsigned magnitude; every character the readers interpret is escaped by the writer, and floats are printed with a format that keeps them floats, identically in both passes; "
+            "every recursion cycle over the nesting of a value is bounded by a counter test or confined behind the bounded size pass, and the shared nesting counter is cleared when a compound restore starts; string readers test for the end of the text in every scanning loop; integers are accumulated and printed at 64 bits with an unsigned magnitude; every character the readers interpret is escaped by the writer, the byte behind a backslash is stored without being interpreted again, and floats are printed with a format that keeps them floats, identically in both passes; "
             "the size pass and the write pass of the serializer handle the same tags and never write more constant/delimiter bytes than were accounted, and callers allocate exactly that size; "
             "the no-clear restore stores into the variable only after a successful parse; every walker of the variable layout (save, restore, lookup) accounts for a program's inherited subtree before its own variables. Round-trip equality of values and robustness of the restore parser on arbitrary text are behavioural and not decided.",
     "design_ref": "DESIGN.md §5 C16",
 }
 
 CLAIMS["C19"] = {
-    "technique": "static analysis: lockset dataflow (must-hold) over the message queue, thread-root closures from the call graph with shared-variable atomicity check, who-may-write on the eventfd counter, cross-thread write sites relative to thread creation",
+    "technique": "static analysis: lockset dataflow (must-hold) over the message queue, thread-root closures from the call graph with shared-variable atomicity check, who-may-write on the eventfd counter, cross-thread write sites relative to thread creation, record-size and must-store path analysis of the notification pipe's reader",
     "text": "Decides race-freedom structurally where it can: every access to a mutable field or slot of the message queue is under the queue mutex on every path, no path returns with it held, the blocking writer releases it around its wait; "
             "variables written in a thread root's closure (timer thread, worker thread) and read by the backend must be atomic or locked (three are not: recorded findings); an eventfd counter may only be written with the constant 1 "
-            "(the completion post encodes key/data in it: recorded finding); a variable a thread root writes is stored by other threads only before pthread_create (one site is not: recorded finding). Exactly-once delivery under interleavings, FIFO order and termination of stop are schedule-dependent and not decided.",
+            "(the completion post encodes key/data in it: recorded finding); a variable a thread root writes is stored by other threads only before pthread_create (one site is not: recorded finding). On the pipe that replaced the eventfd each record is one atomic write, each read takes one record while the caller's array has room, and every record taken is stored. Exactly-once delivery under interleavings, FIFO order and termination of stop are schedule-dependent and not decided.",
     "design_ref": "DESIGN.md §5 C19",
 }
 
@@ -143,15 +143,15 @@ CLAIMS["C06"] = {
 }
 
 CLAIMS["C02"] = {
-    "technique": "static analysis: growth-site rule over every realloc in the compiler units, per-iteration weighted longest-path in budgeted lexer copy loops, must-pass-through of state release in epilog, call-graph reachability of fatal() from compile_file (context-sensitive for comparator arguments), representation-invariant rule on the locals table, reset-completeness of lexer statics (post-dominating resets, drain loops, constant propagation to every return), dominance of an index test inside the loop for growing-index stores (with extent arithmetic where the array has a declared size), report-then-copy reachability for size tests that only call lexerror/yyerror, constant-truth check of assignment conditions, guard dominance excluding -1 for signed division of source-text values",
+    "technique": "static analysis: growth-site rule over every realloc in the compiler units, per-iteration weighted longest-path in budgeted lexer copy loops, must-pass-through of state release in epilog, call-graph reachability of fatal() from compile_file (context-sensitive for comparator arguments), representation-invariant rule on the locals table, reset-completeness of lexer statics (post-dominating resets, drain loops, constant propagation to every return), dominance of an index test inside the loop for growing-index stores (with extent arithmetic where the array has a declared size), report-then-copy reachability for size tests that only call lexerror/yyerror, constant-truth check of assignment conditions, guard dominance excluding -1 for signed division of source-text values, lock-step index-space check of rebased frame pointers, units-of-measure propagation (bytes vs element index) over the memory blocks, per-entry count pairing in the locals table",
     "text": "Decides structural necessary conditions of compiler safety and reusability for all source texts: every table reallocation really grows (or is an exact fit); lexer copy loops that spend a space budget never store more bytes than they charge and SAVEC stores are bounded; "
             "epilog releases lexer, scratchpad and locals on every return; errors are counted and block object creation; fatal() is reachable from compilation only via reviewed internal-inconsistency sites; "
-            "whoever drops a local's sem_value removes it from the live range. every lexer static written while yylex runs is reset per compilation, is a pure statistic, or is provably back at its initial value at each return of its only writer (two flags that leaked into the next file were found and fixed). The stuck re-entrancy flag after an escaping error is a recorded finding. Termination and full equality of the produced program with a fresh driver's (compiler-side state beyond the lexer) are not decided. Also decided for the lexer/preprocessor: an index that grows with the input is compared with a bound on every way into its store (and the bound fits the array's extent), a size test that only reports does not fall through into the copy it guards, no condition is an assignment of never-null pointer arithmetic, and #if arithmetic and constant folding never divide a signed value by a source-chosen -1 (INT_MIN / -1 traps; found in the folding code, replayed and fixed).",
+            "whoever drops a local's sem_value removes it from the live range. every lexer static written while yylex runs is reset per compilation, is a pure statistic, or is provably back at its initial value at each return of its only writer (two flags that leaked into the next file were found and fixed). The stuck re-entrancy flag after an escaping error is a recorded finding. Termination and full equality of the produced program with a fresh driver's (compiler-side state beyond the lexer) are not decided. Also decided for the lexer/preprocessor: an index that grows with the input is compared with a bound on every way into its store (and the bound fits the array's extent), a size test that only reports does not fall through into the copy it guards, no condition is an assignment of never-null pointer arithmetic, and #if arithmetic and constant folding never divide a signed value by a source-chosen -1 (INT_MIN / -1 traps; found in the folding code, replayed and fixed). Every entry of the locals table owns one count of its identifier (a redeclared local took an efun's name away for all later compiles: found, replayed, fixed) and indexed pops stay inside the function's part of the table; byte counts and element indexes of the memory blocks are never mixed.",
     "design_ref": "DESIGN.md §5 C02",
 }
 
 CLAIMS["C01"] = {
-    "technique": "static analysis: clang's type-resolved format checker with injected format attributes over all units plus a literal-provenance rule, output-bound computation for every formatted write into a fixed char array, must-pass CHECK_TYPES analysis of the efun dispatch cases, stack-space check dominance for every value-stack push, saturating-length flow rule, LPC-integer index taint with range guards, stale-pointer typestate for mapping internals held across LPC callbacks, tag-domain abstract interpretation of every efun against the dispatcher's guarantees (argument slot tracking through sp arithmetic, per argument count), guard dominance excluding -1 for signed division of LPC numbers, positivity of V for every `x[V - K]` access, borrowed-value typestate for pointers into apply_ret_value (derived pointers, ownership idioms, callee summaries for lent parameters)",
+    "technique": "static analysis: clang's type-resolved format checker with injected format attributes over all units plus a literal-provenance rule, output-bound computation for every formatted write into a fixed char array, must-pass CHECK_TYPES analysis of the efun dispatch cases, stack-space check dominance for every value-stack push, saturating-length flow rule, LPC-integer index taint with range guards, stale-pointer typestate for mapping internals held across LPC callbacks, tag-domain abstract interpretation of every efun against the dispatcher's guarantees (argument slot tracking through sp arithmetic, per argument count), guard dominance excluding -1 for signed division of LPC numbers, positivity of V for every `x[V - K]` access, borrowed-value typestate for pointers into apply_ret_value (derived pointers, ownership idioms, callee summaries for lent parameters), boundary analysis of snprintf-family truncation tests, store-before-raise path rule for mapping node counts",
     "text": "Decides structural necessary conditions of memory safety for all programs at once, per site: ~900 reporter calls have literal or provably driver-literal formats with well-formed conversions; every sprintf/strcpy into a fixed buffer has a computed bound (LPC-controlled numbers at full range) or is reported undecided; "
             "each F_EFUNn dispatch is behind one CHECK_TYPES per fixed argument; every sp increment is behind a space check or a pop (73 unguarded push sites are recorded findings, so a new one is reported); MSTR_SIZE never reaches a copy/allocation length without its USHRT_MAX fallback; "
             "subscripts and copy lengths derived from LPC integers are dominated by lower and upper bounds paired with the indexed container. mapping node/table pointers that stay live across an LPC callback belong to a mapping the callback cannot reach (private copy or proven single reference). Use-after-free in general, efun-internal pointer arithmetic, pc staying inside the bytecode are not decided. Every read of a pointer union member of an efun argument (213 efuns, per admissible argument count) happens under a tag set - from the dispatcher or from the efun's own tests - for which that member is a pointer (three efuns that used unchecked arguments as pointers were found, replayed and fixed); reads through slots the interpreter cannot resolve are counted, not claimed. Signed division/modulo of LPC integers is reached only with the divisor known not to be -1 (INT64_MIN / -1 killed the driver: found, replayed, fixed). Accesses of the form x[len - K] on script-supplied strings are reached only with len >= K (four under-reads fixed); pointers into apply_ret_value, and anything derived from them, are not used after a call that may store a new apply result, including through callees that make an apply of their own (one dangling save-file name in ed found and fixed).",
